@@ -15,12 +15,18 @@ Required
                 none; no library block is left; under an injected allocation failure: failure with ENOMEM in the
                 system category (or the document's own EBADMSG when the failed request was the error message's),
                 root unchanged - or success with the same tree as without the fault
+  export        (C14: export followed by import reproduces the same tree; seeded C14-9) generated trees - maps whose keys need
+                quoting, nested maps and lists, hostile scalars - exported with vnaproperty_export_yaml_to_file with EVERY
+                allocation request of the export failing once, and the same as global + per-calibration properties through
+                vnacal_save: the call fails (-1, ENOMEM, system category, exactly one report) OR it returned 0 and the text
+                it wrote re-imports (vnacal_load for the file) to the digest of the original tree; the export leaves no block
   vnacal_load   the same property documents as global / per-calibration `properties:` of a calibration file:
                 NULL + EBADMSG + nothing left when the document cannot be imported, else the imported trees.
 """
 import re
 
 import vplib
+import prop_lib as pl
 
 ENTRY_NAME = {"s": "import_yaml_from_string", "f": "import_yaml_from_file"}
 OLD = [("null", []), ("scalar", [b".=old"]), ("map", [b"old.k=v", b"old.l[1]=w"]), ("list", [b"[0]=old", b"[1].k=w"])]
@@ -68,6 +74,27 @@ def gen_doc(rng, depth, anchors):
             items.append(k + b": " + gen_doc(rng, depth - 1, anchors))
         return pre + b"{" + b", ".join(items) + b"}"
     return pre + b"[" + b", ".join(gen_doc(rng, depth - 1, anchors) for _ in range(rng.choice([1, 2, 3]))) + b"]"
+
+
+EXPORT_TREES = [
+    [b"a=1"], [b"a.b=1", b"k\\ c.l[1]=x"], [b".=scalar"], [b"[0]=x", b"[1].k=y"], [],
+    [pl.py_quote_key(k) + b"=" + k for k in (b"a.b ", b" ", b'k: "', b"[x]", b"- x", b"#", b"~", b"null", "\u00e9 \u4e2d".encode())],
+    [b"m.n.o.p=deep", b"m.n.q[2].r=~", b"m.s=v"],
+    [b"k%d=v%d" % (i, i) for i in range(25)],
+]
+
+
+def gen_export_tree(rng):
+    """vnaproperty_set arguments that build a tree with nested maps / lists; keys from the plain and the hostile alphabet
+    (quoted for the descriptor), values with YAML look-alikes and newlines."""
+    keys = pl.PLAIN_KEYS + [k for k in pl.HOSTILE_KEYS if b"\n" not in k and b"\x01" not in k]
+    sets = []
+    for _ in range(rng.randint(1, 6)):
+        parts = []
+        for d in range(rng.randint(1, 3)):
+            parts.append(pl.py_quote_key(rng.choice(keys)) + (b"[%d]" % rng.randint(0, 2) if rng.random() < 0.25 else b""))
+        sets.append(b".".join(parts) + b"=" + rng.choice(pl.VALUES))
+    return sets
 
 
 def parse_dump(s):
@@ -407,6 +434,68 @@ def run(ctx, tag, extra_texts=(), thorough=False):
                         % (c["where"], c["doc"][:60], dgs if okf else "NULL errno %d" % e, want), rep)
         ctx.traces_validated += 1
 
+    # ------------------------------------------------------------------ export / vnacal_save with every allocation request failing once
+    etrees = list(EXPORT_TREES) + [gen_export_tree(rng) for _ in range(30 if not thorough else 400)]
+    ecases = [("exp", t) for t in etrees] + [("sav", t) for t in etrees[:12 if not thorough else 80]]
+    ecmds = "".join("%s %s\n" % (op, ",".join(hx(x) for x in t) or "-") for op, t in ecases)
+    rc3, out3, err3 = vplib.sh([exe], input=ecmds, timeout=1200 if not thorough else 3000, env=env)
+    eblocks = out3.split("END\n")
+    if rc3 != 0:
+        op, t = ecases[min(len(eblocks) - 1, len(ecases) - 1)]
+        sig = vplib.asan_signature(err3) or {"kind": "fault", "error": "exit %s" % rc3, "function": None}
+        ctx.violation(sig, "%s of the tree built by %r with one allocation request failing did not return normally (or leaked): %s"
+                      % ({"exp": "vnaproperty_export_yaml_to_file", "sav": "vnacal_save"}[op], [x.decode("utf-8", "backslashreplace") for x in t][:4],
+                         err3[-300:].replace("\n", " | ")),
+                      {"harness": "yaml_atomic (wrap)", "command": "%s %s" % (op, ",".join(hx(x) for x in t) or "-"), "stderr": err3[-3000:]})
+    estats = {"trees": 0, "fault_runs": 0, "failed": 0, "succeeded": 0, "lost": 0}
+    for (op, t), blk in zip(ecases, eblocks):
+        ls = blk.strip().split("\n")
+        if not ls or not ls[0].startswith("O "):
+            continue
+        f0 = ls[0].split(" ")
+        orig, req, ret0, re0 = f0[1], int(f0[2]), int(f0[3]), f0[4]
+        name = {"exp": "vnaproperty_export_yaml_to_file", "sav": "vnacal_save"}[op]
+        shown = [x.decode("utf-8", "backslashreplace") for x in t][:5]
+        rep0 = {"harness": "yaml_atomic (wrap)", "command": "%s %s" % (op, ",".join(hx(x) for x in t) or "-"), "sets": shown}
+        estats["trees"] += 1
+        ctx.count(("export", op, orig[:60]))
+        if ret0 != 0 or re0 != orig:
+            violate({"kind": "export", "op": name, "class": "no-fault"},
+                    "%s of the tree built by %r: returns %d and the text re-imports to %s, the tree is %s" % (name, shown, ret0, re0[:70], orig[:70]),
+                    dict(rep0, observed=ls[0]))
+        for l in ls[1:]:
+            g = l.split(" ")
+            if g[0] != "X":
+                continue
+            k, fired, ret, e, cat, ncb, re, left = int(g[1]), int(g[2]), int(g[3]), int(g[4]), int(g[5]), int(g[6]), g[7], int(g[8])
+            estats["fault_runs"] += 1
+            ctx.count(("export-fault", op, orig[:40], k))
+            rep = dict(rep0, fault=k, requests=req, observed=l)
+            if left != 0:
+                violate({"kind": "leak", "op": name, "class": "alloc"},
+                        "%s of the tree built by %r with allocation request %d of %d failing: %d library block(s) left by the call"
+                        % (name, shown, k, req, left), rep)
+            if ret == 0:
+                estats["succeeded"] += 1
+                if re != orig:
+                    estats["lost"] += 1
+                    violate({"kind": "export", "op": name, "class": "alloc-success-differs"},
+                            "%s of the tree built by %r with allocation request %d of %d failing returns 0, but the text it wrote "
+                            "re-imports to %s; the tree is %s (export followed by import must reproduce the tree, or the export must fail)"
+                            % (name, shown, k, req, re[:80], orig[:80]), rep)
+                if ncb != 0:
+                    violate({"kind": "callback", "op": name, "class": "alloc-success"},
+                            "%s with request %d failing returns 0 after %d error callbacks" % (name, k, ncb), rep)
+                continue
+            estats["failed"] += 1
+            if not (e == 12 and cat == 0 and ncb == 1):
+                violate({"kind": "callback" if (e == 12 and ncb != 1) else "errno-class", "op": name, "class": "alloc"},
+                        "%s of the tree built by %r with allocation request %d of %d failing returns %d with errno %d, category %d, "
+                        "%d error callbacks (ENOMEM in the system category and exactly one report expected)"
+                        % (name, shown, k, req, ret, e, cat, ncb), rep)
+        ctx.traces_validated += 1
+    ctx.extra["yaml_export_faults_" + tag] = estats
+
     # ------------------------------------------------------------------ obligations
     want = {(e, k, o) for e in "sf" for k in ("syntax", "empty", "alias-cycle", "invalid-key", "alloc", "ok") for o in ("null", "scalar", "map", "list")}
     # on a tree without DO91 / DO90 the kinds are still determined by the document, so coverage does not depend on the fix
@@ -415,10 +504,13 @@ def run(ctx, tag, extra_texts=(), thorough=False):
     nnew = len(ctx.violations) - nviol0
     ctx.obligation("tie:yaml-import-atomic (a failed import leaves the root's digest unchanged, one EBADMSG / ENOMEM report, no block "
                    "left, for every allocation request of the import; library = import_public_x of YamlFault.v; the same documents "
-                   "as properties of a calibration file through vnacal_load)", nnew == 0,
+                   "as properties of a calibration file through vnacal_load; export / vnacal_save with every allocation request "
+                   "failing: clean ENOMEM failure or a text that re-imports to the same tree)", nnew == 0,
                    "%d imports (%d failed), %d fault-injected runs, %d compared with the model (%d disagreements), %d atomicity "
-                   "failures, %d calibration files (%d refused)"
+                   "failures, %d calibration files (%d refused); export / vnacal_save: %d trees, %d fault-injected runs (%d failed "
+                   "cleanly, %d succeeded, %d lost members)"
                    % (stats["cases"], stats["failed_imports"], stats["fault_runs"], stats["model_compared"], stats["disagreements"],
-                      stats["atomicity"], cstats["files"], cstats["null"]))
+                      stats["atomicity"], cstats["files"], cstats["null"], estats["trees"], estats["fault_runs"], estats["failed"],
+                      estats["succeeded"], estats["lost"]))
     ctx.extra["yaml_import_atomic_" + tag] = dict(stats, **{"cal_" + k: v for k, v in cstats.items()})
     return stats
